@@ -10,6 +10,7 @@ import (
 	"time"
 
 	"grits/zverif/harness"
+	"grits/zverif/ref"
 )
 
 type cliFile struct {
@@ -35,6 +36,9 @@ func c18Files(c *harness.Ctx) []cliFile {
 		{Name: "alias_cycle", Text: "type A = B\ntype B = A\nlet f(b : A) : A = fwd self b\nprc[a] : 1 = print hi; close self\n"},
 		{Name: "dup_function", Text: "let f() : 1 = close self\nlet f() : 1 = close self\nprc[a] : 1 = print hi; close self\n"},
 		{Name: "only_declarations_illtyped", Text: "type A = 1\nlet f(x : A) : A = close self\n"},
+		{Name: "left_recursive_type", Text: "type tree = +{leaf : 1, node : tree * tree}\nprc[a] : 1 = print hi; close self\n"},
+		{Name: "illegal_char_between", Text: "type A = 1\nprc[a] : A = print one; close self\n?\nprc[b] : 1 = print two; close self\n"},
+		{Name: "tail_call_leftover", Text: "let f() : 1 = close self\nlet g(x : 1) : 1 = f()\nprc[a] : 1 = y <- new f(); z <- new g(y); wait z; print hi; close self\n"},
 		{Name: "silent", Text: "prc[a] : 1 = close self\n"},
 		{Name: "printing", Text: "let one() : 1 = print one; close self\nprc[a] : 1 = x <- new one(); wait x; print fin; close self\n"},
 		{Name: "missing_file", Miss: true},
@@ -79,7 +83,7 @@ func init() {
 	harness.Register(&harness.Check{
 		ID: "C18", Level: "exploration",
 		Rule:        "the real grits binary (built from the working tree) x file classes (syntax error, empty, illegal character, NUL byte, unterminated comment, comment quirk, three kinds of type error, named-type polarity, alias cycle, duplicate function, declarations only, silent, printing, missing file, corpus programs with split/drop/exec) x the full flag product {none,--typecheck,--notypecheck,--typecheck=false} x {none,--execute,--noexecute,--execute=false} x {none,--sync,--async,--sync --async,--async=false} x --verbosity {1,2,3} = 240 vectors per file; oracle: exit status 0 iff the library parser accepts and (typechecking is off or the library typechecker accepts); no '> ' line when the status is non-zero or execution is off; exactly one diagnostic line on stderr when the status is non-zero; never a Go panic trace; distinct_nontrivial = (file, flag vector) pairs executed",
-		Assumptions: []string{"the expected verdict of each file is computed in-process with the same parser/typechecker (their correctness is C07/C12's subject)", "a 60 s watchdog per run classifies a hang as inconclusive"},
+		Assumptions: []string{"the expected verdict of each file comes from the reference grammar R-gram and, where definite, the reference typechecker R-tc (lenient for K1); only otherwise from the in-process library", "a 60 s watchdog per run classifies a hang as inconclusive"},
 		Cases: func(c *harness.Ctx) int { return len(c18Files(c)) * ((len(c18Flags()) + c18Chunk - 1) / c18Chunk) },
 		Run: func(c *harness.Ctx, idx int, r *harness.Rec) {
 			bin := c.Extra["gritsbin"]
@@ -107,6 +111,22 @@ func init() {
 				if parseOK {
 					tr := TypecheckText(f.Text, nil, nil)
 					tcOK = tr.Accepted()
+				}
+				// independent classification where the reference models are definite: the reference grammar
+				// decides the parse verdict, the reference typechecker the typing verdict
+				toks, lexOK := ref.Tokenize(f.Text)
+				refParse := lexOK && ref.Recognize(toks)
+				if !refParse {
+					parseOK = false
+				}
+				if refParse {
+					if rp, err := ref.ParseProgram(f.Text); err == nil {
+						if v, _ := ref.CheckProgram(rp, true); v.Kind == "accept" {
+							tcOK = true
+						} else if v.Kind == "reject" {
+							tcOK = false
+						}
+					}
 				}
 			}
 			for _, fv := range flags[lo:hi] {
